@@ -6,7 +6,8 @@ from vf.model import *
 CID_TEXT = "d,format,delimited\nf,id,,,,Integer\nf,kind\nc,u,IsUnique,id\nc,k,DistinctCount,kind < 3\n"
 FIXED_CID_TEXT = "d,format,fixed\nd,line delimiter,lf\nf,id,,,1,Integer\nf,kind,,,1\nc,u,IsUnique,id\nc,k,DistinctCount,kind < 3\n"
 CLEAN = "1,a\n2,b\n"; DUP = "1,a\n1,b\n"; MANY = "1,a\n2,b\n3,c\n"        # MANY fails the distinct count at the end
-OPS = ["read_clean", "read_dup", "read_many", "abandon1", "abandon2", "read_noclose", "write", "write_close", "write_dup", "two_readers", "validate_0", "validate_1", "reader_unused"]
+OTHER = "5,x\n6,y\n"                                                        # fine on its own; together with what CLEAN leaves behind it would exceed the distinct count
+OPS = ["read_clean", "read_dup", "read_many", "abandon1", "abandon2", "read_noclose", "write", "write_close", "write_dup", "two_readers", "validate_0", "validate_1", "reader_unused", "read_other"]
 
 
 def run_op(cid, op):
@@ -17,8 +18,8 @@ def run_op(cid, op):
     def outcome(f):
         try: return ("ok", f())
         except errors.DataError as e: return ("DataError", type(e).__name__, str(e.location), e.message[:40])
-    if op in ("read_clean", "read_dup", "read_many"):
-        text = {"read_clean": CLEAN, "read_dup": DUP, "read_many": MANY}[op]
+    if op in ("read_clean", "read_dup", "read_many", "read_other"):
+        text = {"read_clean": CLEAN, "read_dup": DUP, "read_many": MANY, "read_other": OTHER}[op]
         return outcome(lambda: [r for r in validio.rows(cid, io.StringIO(T(text)))])
     if op in ("abandon1", "abandon2"):
         def f():
